@@ -150,4 +150,52 @@ def specRunT {V : Type} (ofStr : Str → V) (ofInt : Int → V) (ih : Str) (fiel
   | .edit _ _ :: ops => specRunT ofStr ofInt ih fields adopted ops
   | .setFields f :: ops => specRunT ofStr ofInt ih f adopted ops
 
+/-! ### `get_info()` while the magnet is being changed (by its callback, by another thread) -/
+
+/-- an assignment as the property sees it: judged on its own; accepted ⇒ the value is stored, and
+    metadata of the previous hash is forgotten (when another string is stored: the code's rule, see
+    `specUse`); rejected ⇒ the magnet error and nothing changes -/
+def specAssignM (m : MState) (op : HashOp) : Option MErr × MState :=
+  match specAssign op with
+  | some s => (none, { hash := some s, info := if m.hash = some s then m.info else none })
+  | none => (some .magnet, m)
+
+/-- a readable torrent with infohash `h` has arrived: with validation it is adopted **iff `h` is the
+    40-digit form of the number denoted by the hash the magnet holds now** — whatever it held when the
+    call started or when the request was sent —, otherwise MetainfoError and nothing changes; without
+    validation the caller asked for the comparison to be skipped -/
+def specArrived (validate : Bool) (m : MState) (h : Str) (ne : Bool) : Except MErr MState :=
+  match m.hash with
+  | none => if validate then .error (.internal "AttributeError") else .ok { m with info := if ne then some h else m.info }
+  | some s =>
+    if validate && h ≠ hexLower40 (hashVal s) then .error .metainfo
+    else .ok { m with info := if ne then some h else m.info }
+
+def specSem : Sem := { assign := specAssignM, arrived := specArrived }
+
+/-- the object holds a valid hash -/
+def HashOk (st : GState) : Prop := ∃ s, st.m.hash = some s ∧ validHash s = true
+
+/-- … and the metadata it holds, if any, denotes that hash (what `StateOk` says, for an object that
+    exists) -/
+def GOk (st : GState) : Prop :=
+  ∃ s, st.m.hash = some s ∧ validHash s = true ∧ ∀ a, st.m.info = some a → a = hexLower40 (hashVal s)
+
+instance (st : GState) : Decidable (GOk st) := by
+  unfold GOk
+  cases h : st.m.hash with
+  | none => exact isFalse (by simp)
+  | some s =>
+    cases hi : st.m.info with
+    | none => exact decidable_of_iff (validHash s = true) (by simp)
+    | some a => exact decidable_of_iff (validHash s = true ∧ a = hexLower40 (hashVal s)) (by simp)
+
+instance (st : GState) : Decidable (HashOk st) := by
+  unfold HashOk
+  cases h : st.m.hash with
+  | none => exact isFalse (by simp)
+  | some s => exact decidable_of_iff (validHash s = true) (by simp)
+
+def callsValidated (cs : List Call) : Bool := cs.all (·.validate)
+
 end Torf.Magnet
